@@ -617,8 +617,11 @@ def correspond_subs(ctx, subs):
 
 
 # ====================================================================== every writer of log files reads back
-WF_FACS = [None, "big.facility", "big.facility.sub", "bigger", "other/x"]
+ABSENT = "<no facility kwarg>"
+# text facilities, no facility at all, and legal non-text ones: explicit None, numbers, bytes, a tuple
+WF_FACS = [ABSENT, "big.facility", "big.facility.sub", "bigger", "other/x", None, 7, b"big.facility", ("big", 1), ""]
 FILTER_OPTS = [[], ["--above", "UNUSUAL"], ["--above", "30"], ["--strip-facility", "big.facility"], ["--strip-facility", "big"],
+               ["--strip-facility", ""], ["--strip-facility", "7"], ["--strip-facility", "None"],
                ["--above", "23", "--strip-facility", "other"], ["--from", "loc"], ["--from", "zz"], ["--before", "4000000000"],
                ["--after", "4000000000"], ["--above", "0"], ["--above", "41"]]
 
@@ -640,7 +643,8 @@ def expected_filter(recs, opts, flog):
                 a = levelmap[o["--above"]] if o["--above"] in levelmap else int(o["--above"])
                 if d["level"] < a:
                     continue
-            if "--strip-facility" in o and (d.get("facility") or "").startswith(o["--strip-facility"]):
+            if "--strip-facility" in o and isinstance(d.get("facility", ""), str) \
+                    and d.get("facility", "").startswith(o["--strip-facility"]):
                 continue
             if "--from" in o and not r["from"].startswith(o["--from"]):
                 continue
@@ -670,22 +674,22 @@ def writer_family(ctx, impl):
             lfo2 = flog.LogFileObserver(lfo2_path, level=0)
             L.addObserver(lfo2.msg)
             hist = []
-            nmsg = 6 if fixed else rng.randint(3, 25)
+            nmsg = len(WF_FACS) if fixed else rng.randint(3, 25)
             for cid in range(nmsg):
                 if fixed:
-                    fac, lvl, vs = WF_FACS[cid % 5], [10, 20, 23, 30, 35, 40][cid], [["int", 1], ["str", u"thr\u00e9e"], ["cyclist"],
-                                                                                     ["deep", 3000], ["badrepr"], ["none"]][cid]
+                    fac, lvl = WF_FACS[cid % len(WF_FACS)], [10, 20, 23, 30, 35, 40, 20, 25, 20, 30][cid]
+                    vs = [["int", 1], ["str", u"thr\u00e9e"], ["cyclist"], ["deep", 3000], ["badrepr"], ["none"]][cid % 6]
                 else:
                     fac, lvl = rng.choice(WF_FACS), rng.choice([5, 10, 20, 23, 25, 30, 35, 40])
                     vs = impl.gen_value(rng, rng.choices(["ok", "odd", "bad"], [0.7, 0.2, 0.1])[0])
                 kw = dict(cid=cid, level=lvl, x=impl.build(vs))
-                if fac is not None:
+                if fac is not ABSENT:
                     kw["facility"] = fac
-                hist.append([fac, lvl, vs])
+                hist.append([repr(fac), lvl, vs])
                 L.msg(u"m%d \u00e9" % cid, **kw)
                 rig.turn()
             L.msg("final trigger", cid=nmsg, level=flog.WEIRD)
-            hist.append([None, flog.WEIRD, ["none"]])
+            hist.append([repr(ABSENT), flog.WEIRD, ["none"]])
             rig.turn()
             rig.timer()
             rig.close()
@@ -781,9 +785,9 @@ def writer_family(ctx, impl):
                     continue
                 src_bz2 = spath.endswith(".bz2")
                 for target in ("new-plain", "new-bz2", "inplace"):
-                    optsets = FILTER_OPTS if fixed else [rng.choice(FILTER_OPTS), rng.choice(FILTER_OPTS[:6])]
+                    optsets = FILTER_OPTS if fixed else [rng.choice(FILTER_OPTS), rng.choice(FILTER_OPTS[:8])]
                     if fixed and sname not in ("logfile-plain", "logfile-bz2", "incident"):
-                        optsets = FILTER_OPTS[:4]
+                        optsets = FILTER_OPTS[:6]
                     for opts in optsets:
                         k += 1
                         work = os.path.join(rig.dir, "f%d-src%s" % (k, ".flog.bz2" if src_bz2 else ".flog"))
@@ -823,7 +827,8 @@ def writer_family(ctx, impl):
                             above = None if "--above" not in oo else lm.get(oo["--above"]) if oo["--above"] in lm else int(oo["--above"])
                             pre = oo.get("--strip-facility")
                             frecs = [("header" in r_, 0 if "header" in r_ else r_["d"]["level"],
-                                      bool(pre is not None and "d" in r_ and (r_["d"].get("facility") or "").startswith(pre)), i)
+                                      bool(pre is not None and "d" in r_ and isinstance(r_["d"].get("facility", ""), str)
+                                           and r_["d"].get("facility", "").startswith(pre)), i)
                                      for i, r_ in enumerate(srecs)]
                             idx = {canon_rec(r_): i for i, r_ in enumerate(srecs)}
                             runs.append(dict(above=above, strip=pre is not None, final_bz2=outp.endswith(".bz2"),
